@@ -734,6 +734,12 @@ class Program:
                 err_ = EvalError(f"raises {unparse(exc_) if exc_ is not None else 'the active exception'}")
                 err_.raised = unparse(exc_) if exc_ is not None else None          # type: ignore[attr-defined]
                 raise err_
+            elif isinstance(st, ast.With) and env.get("__strict__") is not None and all(isinstance(i.optional_vars, (ast.Name, type(None))) for i in st.items):
+                for i_ in st.items:          # evaluation mode: the context object is what the (stubbed) call returns; no exit handling
+                    cv_ = self.fold(mod, i_.context_expr, env)
+                    if i_.optional_vars is not None:
+                        env[i_.optional_vars.id] = cv_
+                self._propagate(mod, st.body, env, who, depth + 1)
             elif isinstance(st, ast.Break):
                 raise _LoopBreak()
             elif isinstance(st, ast.Continue):
